@@ -1,6 +1,9 @@
 package clover
 
 import (
+	"fmt"
+	"strings"
+
 	d "github.com/ostafen/clover/v2/document"
 	"github.com/ostafen/clover/v2/query"
 	"github.com/ostafen/clover/v2/zzverif/nd"
@@ -36,6 +39,11 @@ func twinScript(db *DB, x0, x1, lit, upd float64, dir int, op int) ([]int, [][]s
 	rec(db.CreateCollection("c"))
 	rec(db.CreateIndex("c", "x"))
 	rec(db.Insert("c", mkDoc(map[string]interface{}{"_id": poolIds[0], "x": x0}), mkDoc(map[string]interface{}{"_id": poolIds[1], "x": x1}), mkDoc(map[string]interface{}{"_id": poolIds[2]})))
+	// native replay only: scale the collection so that page-layout-dependent cursor behaviour of the
+	// real bbolt library (entries moving across leaf pages during a scan) can show up
+	for i := 0; i < replayScale(); i++ {
+		rec(db.Insert("c", mkDoc(map[string]interface{}{"_id": fmt.Sprintf("00000000-0000-4000-9000-%012d", i), "x": x0 + float64(i+1), "pad": strings.Repeat("p", 200)})))
+	}
 	q := query.NewQuery("c").Where(query.Field("x").GtEq(lit))
 	find(q.Sort(query.SortOption{Field: "x", Direction: dir}))
 	switch op {
